@@ -4,10 +4,10 @@ import simprops
 import vlib
 
 ID = "C01"
-IMPORTS = ["CaresProps.C01"]
+IMPORTS = ["CaresProps.C01", "CaresProps.C01b"]
 DRIVER_MODULES = ["Driver.SimMain"]
-LEAN_TARGETS = ["CaresProps.C01", "driver_sim"]
-THEOREMS = vlib.discover_theorems("CaresProps/C01.lean")
+LEAN_TARGETS = ["CaresProps.C01", "CaresProps.C01b", "driver_sim"]
+THEOREMS = vlib.discover_theorems("CaresProps/C01.lean") + vlib.discover_theorems("CaresProps/C01b.lean")
 TRUSTED = [
     "Lean 4.33.0 kernel; axioms allowed: propext, Classical.choice, Quot.sound",
     "hand-written channel model lean/CaresModel/Chan/{Types,Client,Core}.lean (exec: request life cycle of ares_send.c, "
